@@ -317,7 +317,27 @@ func genLongText(r *Rng) string {
 	return sb.String()
 }
 
+// mojibakeMode: every text of the database is ASCII plus two-character sequences whose windows-1252
+// bytes happen to form valid UTF-8 (what a mis-decoded UTF-8 file looks like): the transcoded
+// document is then valid UTF-8 as a whole although it is windows-1252.
+var mojibakeMode bool
+var mojibakeAlphabet = []string{"a", "B", " ", "São", "Ã£", "Â©", "Ã¼", "Ã©", "Â£", "x", "7", "-", "Ã±"}
+
 func genText(r *Rng, domain bool, noComma, token bool) string {
+	if mojibakeMode {
+		var sb strings.Builder
+		for i := 0; i < 1+r.Intn(6); i++ {
+			s := Pick(r, mojibakeAlphabet)
+			if token && s == " " {
+				continue
+			}
+			sb.WriteString(s)
+		}
+		if token && sb.Len() == 0 {
+			return "W"
+		}
+		return sb.String()
+	}
 	if !noComma && !token && r.Chance(0.03) {
 		return genLongText(r)
 	}
@@ -369,6 +389,11 @@ func math10(n int) float64 {
 }
 
 func genDur(r *Rng) laptimer.Duration {
+	if r.Chance(0.12) {
+		// nanosecond resolution next to a whole second or a whole hundredth
+		unit := Pick(r, []int64{1000000000, 10000000})
+		return laptimer.Duration(int64(1+r.Intn(7000))*unit + Pick(r, []int64{-1, -999, -1000, -1001, 1, 999, -500000}))
+	}
 	switch r.Intn(5) {
 	case 0:
 		return 0
@@ -532,6 +557,12 @@ func runC01(ctx *Ctx) error {
 		return err
 	}
 	for i := 0; i < ctx.N(220, 5000); i++ {
+		if ctx.R.Chance(0.08) {
+			mojibakeMode = true
+			addLTCase(ctx, genDB(ctx.R, true), true, "domain-mojibake")
+			mojibakeMode = false
+			continue
+		}
 		addLTCase(ctx, genDB(ctx.R, true), true, "domain")
 	}
 	return nil
